@@ -12,11 +12,13 @@ struct Op { K k; long a; long b; std::string name; };
 
 static std::vector<uint8_t> g_bankA, g_bankB, g_badbank, g_song, g_badsong, g_trunc, g_cmf, g_imf, g_rsxx;
 static int g_hook_calls[5];
-static void h_raw(void *, OPN2_UInt8, OPN2_UInt8, OPN2_UInt8, const OPN2_UInt8 *, size_t) { g_hook_calls[0]++; }
-static void h_note(void *, int, int, int, int, double) { g_hook_calls[1]++; }
-static void h_dbg(void *, const char *, ...) { g_hook_calls[2]++; }
-static void h_ls(void *) { g_hook_calls[3]++; }
-static void h_le(void *) { g_hook_calls[4]++; }
+// every hook is registered with its own user-data pointer; a callback that arrives with another pointer is a registration that did not persist as it was made
+static char g_hook_tag[5]; static int g_hook_wrong_ud = -1;
+static void h_raw(void *u, OPN2_UInt8, OPN2_UInt8, OPN2_UInt8, const OPN2_UInt8 *, size_t) { g_hook_calls[0]++; if(u != &g_hook_tag[0]) g_hook_wrong_ud = 0; }
+static void h_note(void *u, int, int, int, int, double) { g_hook_calls[1]++; if(u != &g_hook_tag[1]) g_hook_wrong_ud = 1; }
+static void h_dbg(void *u, const char *, ...) { g_hook_calls[2]++; if(u != &g_hook_tag[2]) g_hook_wrong_ud = 2; }
+static void h_ls(void *u) { g_hook_calls[3]++; if(u != &g_hook_tag[3]) g_hook_wrong_ud = 3; }
+static void h_le(void *u) { g_hook_calls[4]++; if(u != &g_hook_tag[4]) g_hook_wrong_ud = 4; }
 
 struct Ref {
     int numChips = 2; int emulator = 0; bool pcmrate = false; int devid = 0;
@@ -158,11 +160,11 @@ struct C18Model : mcx::Model {
         case LOOPCNT: opn2_setLoopCount(d, (int)o.a); R.loopCnt = (int)o.a; break;
         case HOOKSONLY: opn2_setLoopHooksOnly(d, (int)o.a); R.hooksOnly = (int)o.a; break;
         case TEMPO: { double t = (double)o.a / 10.0; opn2_setTempo(d, t); if(t > 0) R.tempo = t; else failed_call = true; break; }
-        case HOOK_RAW: opn2_setRawEventHook(d, o.a ? h_raw : NULL, NULL); R.hook[0] = o.a != 0; break;
-        case HOOK_NOTE: opn2_setNoteHook(d, o.a ? h_note : NULL, NULL); R.hook[1] = o.a != 0; break;
-        case HOOK_DEBUG: opn2_setDebugMessageHook(d, o.a ? h_dbg : NULL, NULL); R.hook[2] = o.a != 0; break;
-        case HOOK_LS: opn2_setLoopStartHook(d, o.a ? h_ls : NULL, NULL); R.hook[3] = o.a != 0; break;
-        case HOOK_LE: opn2_setLoopEndHook(d, o.a ? h_le : NULL, NULL); R.hook[4] = o.a != 0; break;
+        case HOOK_RAW: opn2_setRawEventHook(d, o.a ? h_raw : NULL, o.a ? &g_hook_tag[0] : NULL); R.hook[0] = o.a != 0; break;
+        case HOOK_NOTE: opn2_setNoteHook(d, o.a ? h_note : NULL, o.a ? &g_hook_tag[1] : NULL); R.hook[1] = o.a != 0; break;
+        case HOOK_DEBUG: opn2_setDebugMessageHook(d, o.a ? h_dbg : NULL, o.a ? &g_hook_tag[2] : NULL); R.hook[2] = o.a != 0; break;
+        case HOOK_LS: opn2_setLoopStartHook(d, o.a ? h_ls : NULL, o.a ? &g_hook_tag[3] : NULL); R.hook[3] = o.a != 0; break;
+        case HOOK_LE: opn2_setLoopEndHook(d, o.a ? h_le : NULL, o.a ? &g_hook_tag[4] : NULL); R.hook[4] = o.a != 0; break;
         case RESET: opn2_reset(d); break;
         case BANK: { const std::vector<uint8_t> &b = o.a == 0 ? g_bankA : o.a == 1 ? g_bankB : o.a == 2 ? g_badbank : o.a == 3 ? g_trunc : g_badbank; long n = o.a == 4 ? 0 : (long)b.size();
             int rc = opn2_openBankData(d, b.data(), n);
@@ -188,7 +190,8 @@ struct C18Model : mcx::Model {
             break; }
         case GETBANK_BAD: { OPN2_BankId id; id.percussive = (OPN2_UInt8)o.b; id.msb = 0; id.lsb = (OPN2_UInt8)o.a; OPN2_Bank bk; must_fail(opn2_getBank(d, &id, OPNMIDI_Bank_Create, &bk), "bank id out of range"); break; }
         case AUDIO: { static short abuf[4096]; int got = opn2_generate(d, (int)o.a, abuf); if(got != (int)o.a) { v.fail("C18/generate-return", "opn2_generate(" + std::to_string(o.a) + ") returned " + std::to_string(got)); return; } break; }
-        case PLAYPROBE: { if(!R.song) break; memset(g_hook_calls, 0, sizeof g_hook_calls); opn2_positionRewind(d); short buf[4096]; for(int k = 0; k < 22; k++) opn2_play(d, 4096, buf);
+        case PLAYPROBE: { if(!R.song) break; memset(g_hook_calls, 0, sizeof g_hook_calls); g_hook_wrong_ud = -1; opn2_positionRewind(d); short buf[4096]; for(int k = 0; k < 22; k++) opn2_play(d, 4096, buf);
+            if(g_hook_wrong_ud >= 0) { static const char *HN[] = {"raw event", "note", "debug message", "loop-start", "loop-end"}; v.fail(std::string("C18/hook-user-data/") + HN[g_hook_wrong_ud], std::string("the ") + HN[g_hook_wrong_ud] + " hook was called with a user-data pointer other than the one it was registered with"); return; }
             if(R.hook[0] && g_hook_calls[0] == 0) { v.fail("C18/hook-not-firing/raw", "raw event hook registered but not called during playback"); return; }
             // the probe song has one note per track: track 0 on channel 0, track 1 on channel 3, track 2 on channel 9; a note reaches the synthesizer (and the note hook) only from an enabled/solo track on an enabled channel
             bool some_note = false; { static const int TCH[3] = {0, 3, 9}; for(int t = 0; t < 3 && t < R.tracks; t++) { bool ten = R.solo >= 0 ? R.solo == t : !R.trackOff[(size_t)t]; if(ten && !R.chanOff[TCH[t]]) some_note = true; } }
